@@ -4,6 +4,7 @@ import (
 	"crypto/ecdsa"
 	"crypto/ed25519"
 	"crypto/elliptic"
+	"crypto/sha256"
 	"crypto/x509"
 	"crypto/x509/pkix"
 	"encoding/asn1"
@@ -137,6 +138,9 @@ func cliFixtures(args []string) error {
 	}
 	writePEM(filepath.Join(dir, "ed25519-pub.pem"), "PUBLIC KEY", spki)
 	info["ed25519-pub"] = ints(pub)
+	// the key the rotating strategy of sign-bundle's verif hook answers from its second GetPublicKey call on (seed = SHA-256 of the first key)
+	rotSeed := sha256.Sum256(pub)
+	info["ed25519-pub2"] = ints(ed25519.NewKeyFromSeed(rotSeed[:]).Public().(ed25519.PublicKey))
 	ioutil.WriteFile(filepath.Join(dir, "ocsp.der"), []byte("not-a-real-ocsp-response"), 0600)
 	os.MkdirAll(filepath.Join(dir, "scts"), 0700)
 	ioutil.WriteFile(filepath.Join(dir, "scts", "a.sct"), []byte("sct-number-one"), 0600)
